@@ -73,4 +73,40 @@ theorem seq_makeFeasible_total (I : SeqInst) (high : ℚ) (hpre : SeqPre I) :
   simp only [h2, h3]
   exact ⟨_, _, rfl⟩
 
+/-! ## non-vacuity -/
+
+/-- the documented preconditions `SeqPre` hold for the instance `nv_sI` of C09b (constructor on the reachable graph
+    `C15.nv_g`, one vehicle, three positions) and for its strict twin -/
+theorem nv_sI_pre : SeqPre nv_sI where
+  hL := by decide
+  nonempty := by decide +kernel
+  inv := nv_sI_inv
+  self := by decide +kernel
+  depotHi := by decide +kernel
+  custHi := fun u h1 h2 => by
+    have h3 : nv_sI.g.nodes.length = 3 := by decide +kernel
+    have : u = 1 ∨ u = 2 := by omega
+    rcases this with rfl | rfl <;> decide +kernel
+
+/-- `seq_makeFeasible_total` on it, for any high cost; it agrees with the reply exhibited in C09b -/
+example : ∃ J sol, nv_sI.makeFeasible 100 = .ok (J, sol) := seq_makeFeasible_total nv_sI 100 nv_sI_pre
+example : ∃ J sol, nv_sI.makeFeasible (-3) = .ok (J, sol) := seq_makeFeasible_total nv_sI (-3) nv_sI_pre
+
+def nv_sIt : SeqInst := ((SeqInst.new C15.nv_g true).setMaxVehicles 1).setMaxSeqLen 3
+
+theorem nv_sIt_pre : SeqPre nv_sIt where
+  hL := by decide
+  nonempty := by decide +kernel
+  inv := C15.nv_inv_of_invB _ (by decide +kernel)
+  self := by decide +kernel
+  depotHi := by decide +kernel
+  custHi := fun u h1 h2 => by
+    have h3 : nv_sIt.g.nodes.length = 3 := by decide +kernel
+    have : u = 1 ∨ u = 2 := by omega
+    rcases this with rfl | rfl <;> decide +kernel
+
+example : ∃ J sol, nv_sIt.makeFeasible 100 = .ok (J, sol) := seq_makeFeasible_total nv_sIt 100 nv_sIt_pre
+example : (nv_val (nv_sIt.makeFeasible 100) (nv_sIt, [])).1.V = 2 ∧
+    (nv_val (nv_sIt.makeFeasible 100) (nv_sIt, [])).2 = [0, 0, 1, 0, 0, 1] := by decide +kernel
+
 end Vrp.C09
